@@ -97,7 +97,8 @@ pub struct Report {
     pub samples: Vec<Value>,
     pub max_samples: usize,
     pub violations: Vec<Violation>,
-    pub floors: Vec<(String, u64, u64)>,
+    /// (name, have, need, aggregation over shards: "sum" | "each" | "set:<name>")
+    pub floors: Vec<(String, u64, u64, String)>,
     pub inconclusive: Vec<String>,
     pub notes: Vec<String>,
     pub rule: String,
@@ -194,8 +195,20 @@ impl Report {
     }
 
     /// Declares a coverage floor; a run below it is inconclusive, not a pass.
+    /// `have` is summed over the shards of a build before being compared.
     pub fn floor(&mut self, name: &str, have: u64, need: u64) {
-        self.floors.push((name.to_string(), have, need));
+        self.floors.push((name.to_string(), have, need, "sum".into()));
+    }
+
+    /// Must hold in every process (ratios, percentages).
+    pub fn floor_each(&mut self, name: &str, have: u64, need: u64) {
+        self.floors.push((name.to_string(), have, need, "each".into()));
+    }
+
+    /// Size of the named `seen` set; the sets of all shards are united first.
+    pub fn floor_set(&mut self, set: &str, need: u64) {
+        let have = self.n_seen(set);
+        self.floors.push((set.to_string(), have, need, format!("set:{set}")));
     }
 
     pub fn inconclusive(&mut self, why: &str) {
@@ -220,7 +233,7 @@ impl Report {
         let floors: Vec<Value> = self
             .floors
             .iter()
-            .map(|(n, h, need)| json!({"name": n, "have": h, "need": need, "met": h >= need}))
+            .map(|(n, h, need, agg)| json!({"name": n, "have": h, "need": need, "met": h >= need, "agg": agg}))
             .collect();
         let viols: Vec<Value> = self
             .violations
@@ -260,7 +273,7 @@ impl Report {
         if !self.violations.is_empty() {
             1
         } else if !self.inconclusive.is_empty()
-            || self.floors.iter().any(|(_, have, need)| have < need)
+            || self.floors.iter().any(|(_, have, need, agg)| have < need && (self.args.nshards == 1 || agg == "each"))
         {
             2
         } else {
